@@ -1076,7 +1076,9 @@ func glueSourceMap(r *Rng, st *Stats) []string {
 			st.Fail("glue-map-json", desc, string(mapBytes), "version 3 JSON")
 			continue
 		}
-		recordSmText(opts.Charset != api.CharsetUTF8, sm, mapBytes, 6)
+		if !withLib { // with nested source maps sourcesContent is copied from the input map's own JSON text: outside SmJson.v
+			recordSmText(opts.Charset != api.CharsetUTF8, sm, mapBytes, 6)
+		}
 		segs, ok := decodeMappings([]byte(sm.Mappings))
 		if !ok {
 			st.Fail("glue-map-undecodable", desc, sm.Mappings, "decodable")
